@@ -315,40 +315,52 @@ example : ∃ (C : WalletCrypto) (key : Bytes), (∀ b, (C.shaHash b).length = 3
   ⟨⟨fun _ => [], fun _ => List.replicate 32 0, fun _ => [], fun _ _ => [], fun _ _ => [], fun _ _ => none⟩,
    List.replicate 32 1, fun _ => by simp, by simp⟩
 
-/-- WIF acceptance stated outright, for EVERY string and hash function, exactly as the code decides: accepted iff
-    the Base58 decoding has 37 or 38 bytes and its last 4 bytes equal the first 4 bytes of the double-SHA256 of
-    the rest; then version = byte 0, key = bytes 1..32, compressed = (38 bytes and byte 33 = 01). A bad character,
-    a wrong length, a wrong checksum are refused; the value of byte 33 of a 38-byte payload is NOT a reason
-    for refusal (see `wif_flag_byte_unchecked_counterexample`). -/
+/-- WIF acceptance stated outright, for EVERY string and hash function — the clean rule (that of Bitcoin Core's
+    `DecodeSecret`): accepted iff the Base58 decoding is EITHER 37 bytes (then uncompressed) OR 38 bytes whose
+    byte 33 is 01 (then compressed), and its last 4 bytes equal the first 4 bytes of the double-SHA256 of the
+    rest; then version = byte 0, key = bytes 1..32. A bad character, a wrong length, a wrong checksum and — since
+    the `fix:` commit for finding `wif-flag-byte-unchecked` — any other value of the flag byte are refused. -/
 theorem wif_accept_iff (C : WalletCrypto) (s : Bytes) (v : UInt8) (k : Bytes) (c : Bool) :
     AddrWif.decode C s = .ok (v, k, c) ↔
-      ∃ pkb, Base58.decode s = some pkb ∧ (pkb.length = 37 ∨ pkb.length = 38) ∧
+      ∃ pkb, Base58.decode s = some pkb ∧
+        ((pkb.length = 37 ∧ c = false) ∨ (pkb.length = 38 ∧ pkb.getD 33 0 = 1 ∧ c = true)) ∧
         (C.shaHash (pkb.take (pkb.length - 4))).take 4 = pkb.drop (pkb.length - 4) ∧
-        v = pkb.headD 0 ∧ k = (pkb.drop 1).take 32 ∧ c = decide (pkb.length = 38 ∧ pkb.getD 33 0 = 1) :=
+        v = pkb.headD 0 ∧ k = (pkb.drop 1).take 32 :=
   AddrWif.accept_iff C s v k c
 
-/-- WIF decode then encode: an accepted string whose payload is 37 bytes, or 38 bytes with flag byte 01
-    (`canonicalFlag`), is exactly `String()` of the (version, key, compressed) it decodes to, and the key has
-    32 bytes. Together with `wif_decode_encode`: accepted-with-canonical-flag ⇔ is the encoding of a triple. -/
-theorem wif_encode_decode (C : WalletCrypto) (s pkb : Bytes) (v : UInt8) (k : Bytes) (c : Bool)
-    (hd : Base58.decode s = some pkb) (hcan : AddrWif.canonicalFlag pkb = true)
+/-- WIF decode then encode, for EVERY accepted string (no side condition any more): it is exactly `String()` of
+    the (version, key, compressed) it decodes to, and the key has 32 bytes. Together with `wif_decode_encode`:
+    accepted ⇔ is the encoding of a triple ("decoding and re-encoding an accepted … yields the same string",
+    "private-key WIF strings likewise"). -/
+theorem wif_encode_decode (C : WalletCrypto) (s : Bytes) (v : UInt8) (k : Bytes) (c : Bool)
     (h : AddrWif.decode C s = .ok (v, k, c)) : AddrWif.encode C v k c = s ∧ k.length = 32 :=
-  AddrWif.encode_decode C s pkb v k c hd hcan h
+  AddrWif.encode_decode C s v k c h
 
-/-- non-vacuity of `canonicalFlag`: a 37-byte payload is canonical -/
-example : AddrWif.canonicalFlag (List.replicate 37 0) = true := by decide
+/-- hence the WIF decoder is injective: two accepted strings that denote the same (version, key, compressed)
+    are the same string — one key has one spelling per compression choice. -/
+theorem wif_decode_injective (C : WalletCrypto) (s s' : Bytes) (v : UInt8) (k : Bytes) (c : Bool)
+    (h : AddrWif.decode C s = .ok (v, k, c)) (h' : AddrWif.decode C s' = .ok (v, k, c)) : s = s' :=
+  AddrWif.decode_inj C s s' v k c h h'
 
-/-- THE PROPERTY FAILS HERE ON THE UNCHANGED CODE ("decoding and re-encoding an accepted … WIF string yields the
-    same string"): `DecodePrivateAddr` does not check the flag byte. For EVERY version, 32-byte key, flag byte
-    other than 01 and hash function, the Base58Check string of version ‖ key ‖ flag is accepted — as an
-    uncompressed key — and `String()` of the result is a different string. (Bitcoin Core refuses such strings.)
-    The harness replays a concrete witness on the real code: known finding `wif-flag-byte-unchecked`. -/
-theorem wif_flag_byte_unchecked_counterexample (C : WalletCrypto) (hlen : ∀ b, (C.shaHash b).length = 32)
+/-- non-vacuity of the two theorems above: accepted strings exist — every `String()` output is one
+    (`wif_decode_encode`) -/
+example (C : WalletCrypto) (hlen : ∀ b, (C.shaHash b).length = 32) :
+    ∃ s v k c, AddrWif.decode C s = .ok (v, k, c) :=
+  ⟨_, 0x80, List.replicate 32 1, true, AddrWif.decode_encode C hlen 0x80 (List.replicate 32 1) true (by simp)⟩
+
+/-- REGRESSION STATEMENT for the fixed finding `wif-flag-byte-unchecked` (before the `fix:` commit the negation
+    was proved here as `wif_flag_byte_unchecked_counterexample`): for EVERY version, 32-byte key, flag byte other
+    than 01 and hash function, the Base58Check string of version ‖ key ‖ flag (38-byte payload, correct checksum)
+    is REFUSED with the flag error — as Bitcoin Core does. The harness replays the concrete witness
+    KwDiBf89QgGbjEhKnhXJuH7LrciVrZi3qYjgd9M7rFU73sMvhksF on the real code on every run. -/
+theorem wif_flag_byte_refused (C : WalletCrypto) (hlen : ∀ b, (C.shaHash b).length = 32)
     (ver flag : UInt8) (key : Bytes) (hk : key.length = 32) (hf : flag ≠ 1) :
     let buf := ver :: (key ++ [flag])
-    let s := Base58.encode (buf ++ (C.shaHash buf).take 4)
-    AddrWif.decode C s = .ok (ver, key, false) ∧ AddrWif.encode C ver key false ≠ s :=
-  AddrWif.flag_unchecked C hlen ver flag key hk hf
+    AddrWif.decode C (Base58.encode (buf ++ (C.shaHash buf).take 4)) = .error .flag :=
+  AddrWif.flag_refused C hlen ver flag key hk hf
+
+/-- non-vacuity: flag bytes other than 01 exist (a 32-byte-hash instance and a 32-byte key: example above) -/
+example : (0 : UInt8) ≠ 1 ∧ (0xff : UInt8) ≠ 1 := by decide
 
 /-! ### pay-to-pubkey scripts -/
 
@@ -470,8 +482,8 @@ theorem segwit_detects_le3_substitutions (hrp s s' p p' : Bytes) (v : Nat)
   --   (`segwit_encode_decode`: an accepted string is, up to case, THE encoding of what it decodes to, so a
   --   corrupted string is never silently accepted as the original destination); the ≤4-edit neighbourhood is
   --   searched by the correspondence run against the BIP173/350 reference (mutation stream), not by a theorem.
-  -- OPEN (known finding, not a proof gap): WIF decode → re-encode for a 38-byte payload whose flag byte is not 01
-  --   is false of the code (`wif_flag_byte_unchecked_counterexample`).
+  -- (CLOSED: finding `wif-flag-byte-unchecked` — WIF decode → re-encode was false of the code for a 38-byte payload
+  --   whose flag byte is not 01; fixed in lib/btc/wallet.go, now `wif_flag_byte_refused` / `wif_encode_decode`.)
 -/
 
 end GocoinV.Props.C15
